@@ -135,7 +135,7 @@ protected:
 	{
 		if (!jsonValue.IsString())
 		{
-			HandleMismatchedTypesPolicy(serializationOptions.mismatchedTypesPolicy);
+			HandleMismatchedTypesPolicy(jsonValue, serializationOptions.mismatchedTypesPolicy);
 			return false;
 		}
 
@@ -147,6 +147,16 @@ protected:
 	RapidJsonNode MakeRapidJsonNodeFromString(string_view_type value, TRapidAllocator& allocator)
 	{
 		return RapidJsonNode(value.data(), static_cast<rapidjson::SizeType>(value.size()), allocator);
+	}
+
+	/// <summary>
+	/// Null value from JSON is excluded from MismatchedTypesPolicy processing for any type of target (it is just "not loaded").
+	/// </summary>
+	static void HandleMismatchedTypesPolicy(const RapidJsonNode& jsonValue, MismatchedTypesPolicy mismatchedTypesPolicy)
+	{
+		if (!jsonValue.IsNull()) {
+			HandleMismatchedTypesPolicy(mismatchedTypesPolicy);
+		}
 	}
 
 	static void HandleMismatchedTypesPolicy(MismatchedTypesPolicy mismatchedTypesPolicy)
@@ -252,7 +262,7 @@ public:
 			if (jsonValue.IsObject()) {
 				return std::make_optional<RapidJsonObjectScope<TMode, TEncoding, TAllocator>>(&jsonValue, mAllocator, this->GetContext(), this);
 			}
-			RapidJsonScopeBase<TEncoding>::HandleMismatchedTypesPolicy(this->GetContext().GetOptions().mismatchedTypesPolicy);
+			RapidJsonScopeBase<TEncoding>::HandleMismatchedTypesPolicy(jsonValue, this->GetContext().GetOptions().mismatchedTypesPolicy);
 			return std::nullopt;
 		}
 		else
@@ -271,7 +281,7 @@ public:
 			if (jsonValue.IsArray()) {
 				return std::make_optional<RapidJsonArrayScope<TMode, TEncoding, TAllocator>>(&jsonValue, mAllocator, this->GetContext(), this);
 			}
-			RapidJsonScopeBase<TEncoding>::HandleMismatchedTypesPolicy(this->GetContext().GetOptions().mismatchedTypesPolicy);
+			RapidJsonScopeBase<TEncoding>::HandleMismatchedTypesPolicy(jsonValue, this->GetContext().GetOptions().mismatchedTypesPolicy);
 			return std::nullopt;
 		}
 		else
@@ -396,7 +406,7 @@ public:
 				{
 					return std::make_optional<RapidJsonObjectScope<TMode, TEncoding, TAllocator>>(jsonValue, mAllocator, this->GetContext(), this, key);
 				}
-				RapidJsonScopeBase<TEncoding>::HandleMismatchedTypesPolicy(this->GetContext().GetOptions().mismatchedTypesPolicy);
+				RapidJsonScopeBase<TEncoding>::HandleMismatchedTypesPolicy(*jsonValue, this->GetContext().GetOptions().mismatchedTypesPolicy);
 			}
 			return std::nullopt;
 		}
@@ -419,7 +429,7 @@ public:
 				{
 					return std::make_optional<RapidJsonArrayScope<TMode, TEncoding, TAllocator>>(jsonValue, mAllocator, this->GetContext(), this, key);
 				}
-				RapidJsonScopeBase<TEncoding>::HandleMismatchedTypesPolicy(this->GetContext().GetOptions().mismatchedTypesPolicy);
+				RapidJsonScopeBase<TEncoding>::HandleMismatchedTypesPolicy(*jsonValue, this->GetContext().GetOptions().mismatchedTypesPolicy);
 			}
 			return std::nullopt;
 		}
@@ -591,7 +601,7 @@ public:
 			{
 				return std::make_optional<RapidJsonArrayScope<TMode, TEncoding, allocator_type>>(&mRootJson, mRootJson.GetAllocator(), this->GetContext());
 			}
-			RapidJsonScopeBase<TEncoding>::HandleMismatchedTypesPolicy(this->GetContext().GetOptions().mismatchedTypesPolicy);
+			RapidJsonScopeBase<TEncoding>::HandleMismatchedTypesPolicy(mRootJson, this->GetContext().GetOptions().mismatchedTypesPolicy);
 			return std::nullopt;
 		}
 		else
@@ -612,7 +622,7 @@ public:
 			{
 				return std::make_optional<RapidJsonObjectScope<TMode, TEncoding, allocator_type>>(&mRootJson, mRootJson.GetAllocator(), this->GetContext());
 			}
-			RapidJsonScopeBase<TEncoding>::HandleMismatchedTypesPolicy(this->GetContext().GetOptions().mismatchedTypesPolicy);
+			RapidJsonScopeBase<TEncoding>::HandleMismatchedTypesPolicy(mRootJson, this->GetContext().GetOptions().mismatchedTypesPolicy);
 			return std::nullopt;
 		}
 		else
